@@ -31,6 +31,29 @@ type pcfg struct {
 	Xs      string   `json:"xs"`
 	Parties int      `json:"parties"`
 	Sigma   float64  `json:"flood_sigma"`
+	// audit extensions (empty / zero = the library defaults, tag unchanged)
+	Xe          string  `json:"xe,omitempty"`                     // gauss-tight | gauss-wide | ternary
+	FloodBoundX float64 `json:"flood_bound_over_sigma,omitempty"` // truncation bound of the flooding noise in units of sigma (0 = 6)
+}
+
+// xe returns the error distribution of the parameter set (nil = library default).
+func (c pcfg) xe() ring.DistributionParameters {
+	switch c.Xe {
+	case "gauss-tight":
+		return ring.DiscreteGaussian{Sigma: 1.5, Bound: 4}
+	case "gauss-wide":
+		return ring.DiscreteGaussian{Sigma: 12, Bound: 72}
+	case "ternary":
+		return ring.Ternary{P: 0.5}
+	}
+	return nil
+}
+
+func (c pcfg) flood() ring.DiscreteGaussian {
+	if c.FloodBoundX > 0 {
+		return ring.DiscreteGaussian{Sigma: c.Sigma, Bound: c.FloodBoundX * c.Sigma}
+	}
+	return flood(c.Sigma)
 }
 
 func (c pcfg) xs() ring.DistributionParameters {
@@ -49,11 +72,18 @@ func (c pcfg) rlweLit() rlwe.ParametersLiteral {
 	if c.Ring == "ci" {
 		rt = ring.ConjugateInvariant
 	}
-	return rlwe.ParametersLiteral{LogN: c.LogN, Q: c.Q, P: c.P, Xs: c.xs(), RingType: rt, NTTFlag: c.NTT}
+	return rlwe.ParametersLiteral{LogN: c.LogN, Q: c.Q, P: c.P, Xs: c.xs(), Xe: c.xe(), RingType: rt, NTTFlag: c.NTT}
 }
 
 func (c pcfg) tag() string {
-	return fmt.Sprintf("%s/%s/logN%d/q%v/p%v/t%d/s%d/ntt%v/%s/n%d/sg%g", c.Scheme, c.Ring, c.LogN, c.QBits, c.PBits, c.T, c.LogS, c.NTT, c.Xs, c.Parties, c.Sigma)
+	s := fmt.Sprintf("%s/%s/logN%d/q%v/p%v/t%d/s%d/ntt%v/%s/n%d/sg%g", c.Scheme, c.Ring, c.LogN, c.QBits, c.PBits, c.T, c.LogS, c.NTT, c.Xs, c.Parties, c.Sigma)
+	if c.Xe != "" {
+		s += "/xe-" + c.Xe
+	}
+	if c.FloodBoundX > 0 {
+		s += fmt.Sprintf("/fb%g", c.FloodBoundX)
+	}
+	return s
 }
 
 func flood(sigma float64) ring.DiscreteGaussian {
